@@ -492,7 +492,11 @@ def judge_exprs(toks_list, origin):
         cm = marks(ci["t"]) if ci["err"] != "crash" else {}
         for k, j in enumerate(b):
             want = truth_of(info[j][0])
-            if gm.get(k) != want:
+            if gm.get(k) != want and info[j][2] == "z":
+                # zero divisor in an unevaluated operand: gcc's cpp types that quotient by its left operand only
+                ifstats["gcc_skipped_zero_divisor_in_unevaluated_operand"] = \
+                    ifstats.get("gcc_skipped_zero_divisor_in_unevaluated_operand", 0) + 1
+            elif gm.get(k) != want:
                 ifstats["gcc_ne_spec"] += 1
                 record_model_bug("if-grid", None, "#if " + " ".join(toks_list[j]), "c11Eval != gcc",
                                  str(gm.get(k)), [info[j][0]])
@@ -867,6 +871,8 @@ ck.assumptions += [
     "compared with the executable C11 specification on generated inputs only",
     "expressions whose C11 evaluation is undefined (signed overflow, shift count outside 0..63, INTMAX_MIN/-1, a "
     "constant without type) are generated but not compared",
+    "an #if expression with a zero divisor inside an operand that is not evaluated (`1 ? -2 : 1/(2%2u)`) is compared "
+    "with the C11 model only: gcc's cpp gives that quotient the type of its left operand alone (counted)",
     "cases the C11 spec rejects but gcc accepts as an extension (missing variable argument, `, ## __VA_ARGS__`) are "
     "discarded and counted",
 ]
